@@ -196,7 +196,8 @@ C13Scn(p) ==
 ---------------------------------------------------------------------------
 (* C15 (Shapes): request shapes, provider body classes, claim-type classes *)
 ReqShapes == {"nilAttributes", "nilRequest", "nilHttp", "nilHeaders", "emptyPath", "noHost", "noScheme", "cookieNoEquals", "cookieEmptyValue",
-              "cookieManyEquals", "cookieOnlySemis", "cookieHuge", "cookieBinary", "cookieDuplicate", "cookieUpperHeader", "pathNoSlash",
+              "cookieManyEquals", "cookieOnlySemis", "cookieHuge", "cookieBinary", "cookieDuplicate", "cookieUpperHeader", "cookieLoneQuote",
+              "cookieOtherLoneQuote", "cookieQuoted", "cookieUnbalancedQuote", "cookieEmptyQuotes", "cookieWhitespace", "cookieCommaSeparated", "pathNoSlash",
               "pathOnlyQuery", "pathOnlyFragment", "pathHuge", "pathBinary", "pathPctBad", "hostWithPort", "hostOdd", "queryFieldSet", "methodOdd"}
 BodyClasses == {"null", "array", "string", "number", "bool", "empty", "emptyObject", "truncated", "notjson", "wrongTypesNum", "wrongTypesNull",
                 "wrongTypesObj", "hugeNumber", "hugeInt", "negative", "floatExp", "nested", "noIdToken", "emptyIdToken", "idTokenTwoDots",
@@ -224,14 +225,18 @@ C15Scn(p) ==
 
 ---------------------------------------------------------------------------
 (* C18: two filters, shared or separate stores, renamed cookies, own timeouts *)
-C18Space == [stores : {"sharedMemory", "sharedRedis", "separate"}, samePrefix : BOOLEAN, how : {"renamed", "asIs"},
-             absA : {0, 300}, absB : {0, 100}, firstLogin : {"f1", "f2"}]
+C18Space == [stores : {"sharedMemory", "sharedRedis", "separate", "redisDbs"}, samePrefix : BOOLEAN, how : {"renamed", "asIs"},
+             absA : {0, 300}, absB : {0, 100}, firstLogin : {"f1", "f2"}, override : {FALSE}]
+            \cup [stores : {"sharedMemory", "redisDbs"}, samePrefix : {FALSE}, how : {"renamed"}, absA : {0}, absB : {0, 100},
+                  firstLogin : {"f1", "f2"}, override : {TRUE}]
 
 C18Scn(p) ==
-  LET sa == IF p.stores = "sharedRedis" THEN "redis" ELSE "memory"
-      sb == IF p.stores = "sharedMemory" THEN "memory" ELSE "redis"
-      fa == [Flt("f1", TRUE, sa) EXCEPT !.prefix = (IF p.samePrefix THEN "same" ELSE "one"), !.abs = p.absA]
-      fb == [Flt("f2", TRUE, sb) EXCEPT !.prefix = (IF p.samePrefix THEN "same" ELSE "two"), !.abs = p.absB, !.idp = "B", !.atHeader = "x-at-two"]
+  LET sa == IF p.stores \in {"sharedRedis", "redisDbs"} THEN "redis" ELSE "memory"
+      sb == IF p.stores = "sharedMemory" THEN "memory" ELSE IF p.stores = "redisDbs" THEN "redis#1" ELSE "redis"
+      ov(f) == [x \in DOMAIN f \cup {"override"} |-> IF x = "override" THEN p.override ELSE f[x]]
+      fa == ov([Flt("f1", TRUE, sa) EXCEPT !.prefix = (IF p.samePrefix THEN "same" ELSE "one"), !.abs = p.absA])
+      fb == ov([Flt("f2", TRUE, sb) EXCEPT !.prefix = (IF p.samePrefix THEN "same" ELSE "two"), !.abs = p.absB, !.idp = "B", !.atHeader = "x-at-two",
+                                           !.idHeader = "x-id-two", !.idPreamble = "Token"])
       me == p.firstLogin
       other == IF me = "f1" THEN "f2" ELSE "f1"
       cross == [App("b1", other, "jar", 2, Ans0) EXCEPT !.op = "check"]
@@ -239,11 +244,12 @@ C18Scn(p) ==
                   THEN [x \in DOMAIN cross \cup {"cookieAs"} |-> IF x = "cookieAs" THEN me ELSE cross[x]]
                   ELSE cross
       long == [Ans0 EXCEPT !.idLife = 1000, !.expiresIn = 1000]
-  IN Scn("c18/" \o p.stores \o (IF p.samePrefix THEN "/same/" ELSE "/distinct/") \o p.how \o "/a" \o ToString(p.absA) \o "/b" \o ToString(p.absB) \o "/" \o me,
+  IN Scn("c18/" \o p.stores \o (IF p.override THEN "/override" ELSE "") \o (IF p.samePrefix THEN "/same/" ELSE "/distinct/") \o p.how \o "/a" \o ToString(p.absA) \o "/b" \o ToString(p.absB) \o "/" \o me,
          <<fa, fb>>,
          <<Browse("b1", me, 1, long), crossReq, App("b1", me, "jar", 1, long),
            Tick(150), App("b1", me, "jar", 1, long), Browse("b2", other, 2, long), Tick(150), App("b2", other, "jar", 2, long),
-           Tick(100), App("b1", me, "jar", 1, long), App("b2", other, "jar", 2, long)>>,
+           Tick(100), App("b1", me, "jar", 1, long), App("b2", other, "jar", 2, long),
+           Logout("b1", me, "jar"), Logout("b2", other, "jar")>>,
          <<"isolation">>)
 
 ---------------------------------------------------------------------------
